@@ -466,6 +466,288 @@ theorem send_after_stop_refused (cfg : Cfg) (s : St) (i : Nat) (k : SendKind) (v
       step cfg s (.check i) = some (refuse s i k v .refusedStopReq)) := by
   refine ⟨fun h1 h2 => by simp [step, h1, h2], fun h1 h2 => by simp [step, h1, h2]⟩
 
+/-! ### liveness: every accepted value is eventually delivered (weak fairness) -/
+
+/-- an infinite execution of the transition system -/
+structure Exec (cfg : Cfg) where
+  σ : Nat → St
+  lab : Nat → Label
+  init : Reach cfg (σ 0)
+  next : ∀ n, step cfg (σ n) (lab n) = some (σ (n + 1))
+
+/-- the run continues: no stop request and no graph stop, now or later -/
+def Exec.Continues {cfg : Cfg} (e : Exec cfg) : Prop :=
+  (e.σ 0).stopReq = false ∧ (e.σ 0).closing = false ∧ ∀ n, isStopLabel (e.lab n) = false
+
+/-- weak fairness of the steps the argument relies on: a producer that has been admitted
+    eventually performs its mark; the evaluation thread eventually performs the pop and the re-arm
+    of a push phase it has begun; and it eventually begins a cycle when the flag stays set while it
+    is idle (the real-time loop: C17 `rt_no_missed_signal`, `rt_wait_returns_on_signal`) -/
+structure Exec.Fair {cfg : Cfg} (e : Exec cfg) : Prop where
+  mark : ∀ i n, (∀ m, n ≤ m → ∃ k v w, (e.σ m).pcs i = .admitted k v w) → ∃ m, n ≤ m ∧ e.lab m = .mark i
+  pop : ∀ n, (∀ m, n ≤ m → (e.σ m).cpc = .reset) → ∃ m, n ≤ m ∧ e.lab m = .pop
+  rearm : ∀ n, (∀ m, n ≤ m → ∃ b, (e.σ m).cpc = .popped b) → ∃ m, n ≤ m ∧ e.lab m = .rearm
+  cycle : ∀ n, (∀ m, n ≤ m → (e.σ m).cpc = .idle ∧ (e.σ m).flag = true) → ∃ m dt, n ≤ m ∧ e.lab m = .beginCycle dt
+
+/-- "`P` holds until the step `T` is taken, and `T` is taken": the weak-fairness rule -/
+theorem stays_until {P T : Nat → Prop} (n : Nat) (h0 : P n) (hstep : ∀ q, n ≤ q → P q → ¬T q → P (q + 1))
+    (hfair : (∀ q, n ≤ q → P q) → ∃ m, n ≤ m ∧ T m) : ∃ m, n ≤ m ∧ T m ∧ P m := by
+  apply Classical.byContradiction
+  intro hno
+  have hall : ∀ q, n ≤ q → P q := by
+    intro q hq
+    induction q with
+    | zero => have : n = 0 := by omega
+              subst this; exact h0
+    | succ q ih =>
+      by_cases hqn : n ≤ q
+      · have hp := ih hqn
+        apply hstep q hqn hp
+        intro ht
+        exact hno ⟨q, hqn, ht, hp⟩
+      · have : n = q + 1 := by omega
+        subst this; exact h0
+  obtain ⟨m, hm, ht⟩ := hfair hall
+  exact hno ⟨m, hm, ht, hall m hm⟩
+
+section Live
+variable {cfg : Cfg} (e : Exec cfg)
+
+theorem exec_reach (n : Nat) : Reach cfg (e.σ n) := by
+  induction n with
+  | zero => exact e.init
+  | succ n ih => exact .step _ ih (e.next n)
+
+theorem exec_quiet (hc : e.Continues) (n : Nat) : (e.σ n).stopReq = false ∧ (e.σ n).closing = false := by
+  induction n with
+  | zero => exact ⟨hc.1, hc.2.1⟩
+  | succ n ih =>
+    obtain ⟨h1, h2, _⟩ := step_keeps_stop (e.next n) (hc.2.2 n)
+    exact ⟨by rw [h1]; exact ih.1, by rw [h2]; exact ih.2⟩
+
+theorem exec_dcount_mono {n m : Nat} (h : n ≤ m) : dcount (e.σ n) ≤ dcount (e.σ m) := by
+  induction m with
+  | zero => have : n = 0 := by omega
+            subst this; exact Nat.le_refl _
+  | succ m ih =>
+    by_cases hm : n ≤ m
+    · exact Nat.le_trans (ih hm) (step_dcount (e.next m)).1
+    · have : n = m + 1 := by omega
+      subst this; exact Nat.le_refl _
+
+theorem exec_accepted_mono {n m : Nat} (h : n ≤ m) : ∃ t, (e.σ m).accepted = (e.σ n).accepted ++ t := by
+  induction m with
+  | zero => have : n = 0 := by omega
+            subst this; exact ⟨[], by simp⟩
+  | succ m ih =>
+    by_cases hm : n ≤ m
+    · obtain ⟨t, ht⟩ := ih hm
+      obtain ⟨u, hu⟩ := step_accepted_mono (e.next m)
+      exact ⟨t ++ u, by rw [hu, ht]; simp⟩
+    · have : n = m + 1 := by omega
+      subst this; exact ⟨[], by simp⟩
+
+/-- a started state: pending values imply a started source -/
+theorem deque_started {s : St} (h : Reach cfg s) (hd : s.deque ≠ []) : s.started = true := by
+  cases hst : s.started with
+  | true => rfl
+  | false => exact absurd ((inv_reach h).life.2.2 hst).1 hd
+
+/-- progress goal: strictly more values have been handed to the graph at some later point -/
+def Goal (n : Nat) : Prop := ∃ m, n < m ∧ dcount (e.σ n) < dcount (e.σ m)
+
+theorem goal_of_later {n m : Nat} (h : n ≤ m) (hg : Goal e m) : Goal e n := by
+  obtain ⟨q, hq, hlt⟩ := hg
+  have := exec_dcount_mono e h
+  exact ⟨q, by omega, by omega⟩
+
+/-- the push phase has been entered (flag reset) with values pending: the pop delivers -/
+theorem goal_reset (hc : e.Continues) (hf : e.Fair) (n : Nat) (h1 : (e.σ n).cpc = .reset) (h2 : (e.σ n).deque ≠ []) :
+    Goal e n := by
+  obtain ⟨m, hm, ht, hp1, hp2⟩ := stays_until (P := fun q => (e.σ q).cpc = .reset ∧ (e.σ q).deque ≠ [])
+    (T := fun q => e.lab q = .pop) n ⟨h1, h2⟩
+    (by
+      intro q _ ⟨p1, p2⟩ hnt
+      have hcpc := (step_cpc (e.next q)).1
+      refine ⟨?_, step_deque_ne (e.next q) (hc.2.2 q) hnt (deque_started (exec_reach e q) p2) p2⟩
+      rw [← p1]
+      apply hcpc
+      · intro dt hl
+        have := (step_cpc (e.next q)).2.2.2 ⟨dt, hl⟩
+        rw [p1] at this; simp at this
+      · exact hnt
+      · intro hl
+        obtain ⟨b, hb⟩ := (step_cpc (e.next q)).2.2.1 hl
+        rw [p1] at hb; simp at hb)
+    (fun hall => hf.pop n (fun m hm => (hall m hm).1))
+  have hlt := (step_dcount (e.next m)).2
+  rw [ht] at hlt
+  have := hlt rfl hp2
+  have := exec_dcount_mono e hm
+  exact ⟨m + 1, by omega, by omega⟩
+
+/-- idle with the flag set and values pending: a cycle begins, then `goal_reset` -/
+theorem goal_idle_flag (hc : e.Continues) (hf : e.Fair) (n : Nat) (h1 : (e.σ n).cpc = .idle) (h2 : (e.σ n).flag = true)
+    (h3 : (e.σ n).deque ≠ []) : Goal e n := by
+  obtain ⟨m, hm, ⟨dt, ht⟩, hp1, hp2, hp3⟩ := stays_until
+    (P := fun q => (e.σ q).cpc = .idle ∧ (e.σ q).flag = true ∧ (e.σ q).deque ≠ [])
+    (T := fun q => ∃ dt, e.lab q = .beginCycle dt) n ⟨h1, h2, h3⟩
+    (by
+      intro q _ ⟨p1, p2, p3⟩ hnt
+      have hnb : ∀ dt, e.lab q ≠ .beginCycle dt := fun dt hl => hnt ⟨dt, hl⟩
+      have hnp : e.lab q ≠ .pop := by
+        intro hl
+        have := (step_cpc (e.next q)).2.1 hl
+        rw [p1] at this; simp at this
+      have hnr : e.lab q ≠ .rearm := by
+        intro hl
+        obtain ⟨b, hb⟩ := (step_cpc (e.next q)).2.2.1 hl
+        rw [p1] at hb; simp at hb
+      refine ⟨?_, step_flag (e.next q) hnb p2,
+        step_deque_ne (e.next q) (hc.2.2 q) hnp (deque_started (exec_reach e q) p3) p3⟩
+      rw [← p1]
+      exact (step_cpc (e.next q)).1 hnb hnp hnr)
+    (fun hall => by
+      obtain ⟨m, dt, hm, hl⟩ := hf.cycle n (fun m hm => ⟨(hall m hm).1, (hall m hm).2.1⟩)
+      exact ⟨m, hm, dt, hl⟩)
+  have hnext := e.next m
+  rw [ht] at hnext
+  obtain ⟨c1, c2⟩ := step_beginCycle hnext hp2
+  have hg := goal_reset e hc hf (m + 1) c1 (by rw [c2]; exact hp3)
+  exact goal_of_later e (by omega) hg
+
+/-- between pop and re-arm with the flag set (or a re-arm owed): the re-arm, then `goal_idle_flag` -/
+theorem goal_popped (hc : e.Continues) (hf : e.Fair) (n : Nat) (b : Bool) (h1 : (e.σ n).cpc = .popped b)
+    (h2 : b = true ∨ (e.σ n).flag = true) (h3 : (e.σ n).deque ≠ []) : Goal e n := by
+  obtain ⟨m, hm, ht, hp1, hp2, hp3⟩ := stays_until
+    (P := fun q => (e.σ q).cpc = .popped b ∧ (b = true ∨ (e.σ q).flag = true) ∧ (e.σ q).deque ≠ [])
+    (T := fun q => e.lab q = .rearm) n ⟨h1, h2, h3⟩
+    (by
+      intro q _ ⟨p1, p2, p3⟩ hnt
+      have hnb : ∀ dt, e.lab q ≠ .beginCycle dt := by
+        intro dt hl
+        have := (step_cpc (e.next q)).2.2.2 ⟨dt, hl⟩
+        rw [p1] at this; simp at this
+      have hnp : e.lab q ≠ .pop := by
+        intro hl
+        have := (step_cpc (e.next q)).2.1 hl
+        rw [p1] at this; simp at this
+      refine ⟨?_, ?_, step_deque_ne (e.next q) (hc.2.2 q) hnp (deque_started (exec_reach e q) p3) p3⟩
+      · rw [← p1]; exact (step_cpc (e.next q)).1 hnb hnp hnt
+      · rcases p2 with p2 | p2
+        · exact Or.inl p2
+        · exact Or.inr (step_flag (e.next q) hnb p2))
+    (fun hall => hf.rearm n (fun m hm => ⟨b, (hall m hm).1⟩))
+  have hnext := e.next m
+  rw [ht] at hnext
+  obtain ⟨c1, c2, c3⟩ := step_rearm hnext
+  have hfl : (e.σ (m + 1)).flag = true := by
+    apply c3 (exec_quiet e hc m).1
+    rcases hp2 with hp2 | hp2
+    · left; rw [hp1, hp2]
+    · right; exact hp2
+  have hg := goal_idle_flag e hc hf (m + 1) c1 hfl (by rw [c2]; exact hp3)
+  exact goal_of_later e (by omega) hg
+
+/-- the flag is set and values are pending: whatever the evaluation thread is doing, it delivers -/
+theorem goal_flag (hc : e.Continues) (hf : e.Fair) (n : Nat) (h2 : (e.σ n).flag = true) (h3 : (e.σ n).deque ≠ []) :
+    Goal e n := by
+  cases hcpc : (e.σ n).cpc with
+  | idle => exact goal_idle_flag e hc hf n hcpc h2 h3
+  | reset => exact goal_reset e hc hf n hcpc h3
+  | popped b => exact goal_popped e hc hf n b hcpc (Or.inr h2) h3
+
+/-- if nothing was delivered in between, the queue is still non-empty -/
+theorem deque_ne_of_no_delivery (hc : e.Continues) {n m : Nat} (h : n ≤ m) (hd : (e.σ n).deque ≠ [])
+    (heq : dcount (e.σ m) = dcount (e.σ n)) : (e.σ m).deque ≠ [] := by
+  induction m with
+  | zero => have : n = 0 := by omega
+            subst this; exact hd
+  | succ m ih =>
+    by_cases hm : n ≤ m
+    · have hmono1 := exec_dcount_mono e hm
+      have hmono2 := (step_dcount (e.next m)).1
+      have heqm : dcount (e.σ m) = dcount (e.σ n) := by omega
+      have hdm := ih hm heqm
+      by_cases hl : e.lab m = .pop
+      · have := (step_dcount (e.next m)).2 hl hdm
+        omega
+      · exact step_deque_ne (e.next m) (hc.2.2 m) hl (deque_started (exec_reach e m) hdm) hdm
+    · have : n = m + 1 := by omega
+      subst this; exact hd
+
+/-- **progress**: whenever values are pending, strictly more values are eventually delivered -/
+theorem progress (hc : e.Continues) (hf : e.Fair) (n : Nat) (hd : (e.σ n).deque ≠ []) : Goal e n := by
+  rcases no_lost_wakeup (exec_reach e n) hd with h | ⟨i, k, v, h⟩ | h | h | h
+  · exact goal_flag e hc hf n h hd
+  · -- a producer owes its mark: it is eventually performed and sets the flag
+    obtain ⟨m, hm, ht, hp⟩ := stays_until (P := fun q => (e.σ q).pcs i = .admitted k v true)
+      (T := fun q => e.lab q = .mark i) n h
+      (fun q _ p hnt => step_pcs_admitted (e.next q) i k v true hnt p)
+      (fun hall => hf.mark i n (fun m hm => ⟨k, v, true, hall m hm⟩))
+    have hnext := e.next m
+    rw [ht] at hnext
+    obtain ⟨c1, c2, c3⟩ := step_mark hnext hp (exec_quiet e hc m).1
+    have hmono := exec_dcount_mono e (show n ≤ m + 1 by omega)
+    by_cases heq : dcount (e.σ (m + 1)) = dcount (e.σ n)
+    · have hdm := deque_ne_of_no_delivery e hc (show n ≤ m + 1 by omega) hd heq
+      exact goal_of_later e (by omega) (goal_flag e hc hf (m + 1) c1 hdm)
+    · exact ⟨m + 1, by omega, by omega⟩
+  · exact goal_reset e hc hf n h hd
+  · exact goal_popped e hc hf n true h (Or.inl rfl) hd
+  · rw [(exec_quiet e hc n).1] at h; simp at h
+
+/-- **C16 (ceiling).** Every accepted value is delivered if the run continues long enough: in every
+    infinite execution without a stop request or graph stop, under weak fairness of the threads'
+    steps, for every position `j` of the accepted sequence at time `n` there is a later time at
+    which at least `j+1` values have been handed to the graph — and by
+    `delivered_prefix_of_accepted` the `j`-th of them is exactly the `j`-th accepted value. -/
+theorem eventually_delivered (hp : cfg.policy ≠ .conflating) (hc : e.Continues) (hf : e.Fair) (n j : Nat)
+    (hj : j < (e.σ n).accepted.length) :
+    ∃ m, n ≤ m ∧ j < (flat (e.σ m).delivered).length ∧
+      (flat (e.σ m).delivered)[j]? = (e.σ n).accepted[j]? := by
+  -- first: enough deliveries
+  have key : ∀ k n, j + 1 - dcount (e.σ n) ≤ k → j < (e.σ n).accepted.length → ∃ m, n ≤ m ∧ j < dcount (e.σ m) := by
+    intro k
+    induction k with
+    | zero => intro n hk _; exact ⟨n, Nat.le_refl _, by omega⟩
+    | succ k ih =>
+      intro n hk hj
+      by_cases hdone : j < dcount (e.σ n)
+      · exact ⟨n, Nat.le_refl _, hdone⟩
+      · -- the queue is non-empty: accepted = delivered ++ pending
+        have hr := exec_reach e n
+        obtain ⟨dr, h1, h2⟩ := (inv_reach hr).pre hp
+        have hst : (e.σ n).started = true := by
+          cases hs : (e.σ n).started with
+          | true => rfl
+          | false =>
+            have := ((inv_reach hr).life.2.2 hs).2.1
+            rw [this] at hj; simp at hj
+        have hacc := running_accepting hr hst (exec_quiet e hc n).2
+        have hdr := h2 hacc
+        subst hdr
+        have hne : (e.σ n).deque ≠ [] := by
+          intro hemp
+          rw [h1, hemp] at hj
+          simp only [List.append_nil] at hj
+          exact hdone hj
+        obtain ⟨m, hm, hlt⟩ := progress e hc hf n hne
+        obtain ⟨t, ht⟩ := exec_accepted_mono e (show n ≤ m by omega)
+        obtain ⟨m', hm', hres⟩ := ih m (by omega) (by rw [ht]; simp; omega)
+        exact ⟨m', by omega, hres⟩
+  obtain ⟨m, hm, hlt⟩ := key (j + 1) n (by omega) hj
+  refine ⟨m, hm, hlt, ?_⟩
+  obtain ⟨t, ht⟩ := delivered_prefix_of_accepted (exec_reach e m) hp
+  obtain ⟨u, hu⟩ := exec_accepted_mono e hm
+  have h1 : (e.σ m).accepted[j]? = (flat (e.σ m).delivered)[j]? := by
+    rw [← ht]; exact List.getElem?_append_left hlt
+  have h2 : (e.σ m).accepted[j]? = (e.σ n).accepted[j]? := by
+    rw [hu]; exact List.getElem?_append_left hj
+  rw [← h1, h2]
+
+end Live
+
 /-! ### non-vacuity -/
 
 /-- capacity 1, two producers: 1 is admitted and marks; 2 parks in `send_blocking`; the consumer
@@ -494,5 +776,83 @@ example : (runLabels { cap := 1 } {} (exLabels.take 8)).pcs 2 = .blocked 20 ∧
 /-- a stopped source (hypotheses of `nothing_accepted_after_stop`) -/
 example : (runLabels {} {} [.start, .closeBegin, .queueStop]).started = true ∧
     (runLabels {} {} [.start, .closeBegin, .queueStop]).accepting = false := by decide
+
+/-! a concrete infinite execution that continues and is fair: one send is performed, delivered by
+    one evaluation cycle, and the evaluation thread keeps running (empty) cycles for ever -/
+
+def xLabs : List Label := [.enter 0 .try_ 5, .check 0, .admitQ 0, .mark 0, .beginCycle 0, .pop, .rearm]
+def xS0 : St := runLabels {} {} [.start]
+def xEnd : St := runLabels {} xS0 xLabs
+def xσ (n : Nat) : St := if n ≤ 7 then runLabels {} xS0 (xLabs.take n) else { xEnd with time := xEnd.time + (n - 7) }
+def xLab (n : Nat) : Label := xLabs.getD n (.beginCycle 0)
+
+theorem xEnd_fields : xEnd.flag = false ∧ xEnd.cpc = .idle ∧ xEnd.started = true ∧ xEnd.closing = false ∧
+    xEnd.stopReq = false ∧ (∀ i, xEnd.pcs i = .idle) ∧ xEnd.accepted = [(0, 5)] ∧ flat xEnd.delivered = [(0, 5)] := by
+  refine ⟨by decide, by decide, by decide, by decide, by decide, ?_, by decide, by decide⟩
+  intro i
+  simp [xEnd, xS0, xLabs, runLabels, step, accept, markFlag, upd, full]
+  split
+  · intro h; contradiction
+  · intro _; rfl
+
+theorem xnext (n : Nat) : step {} (xσ n) (xLab n) = some (xσ (n + 1)) := by
+  by_cases h : n < 7
+  · have : n = 0 ∨ n = 1 ∨ n = 2 ∨ n = 3 ∨ n = 4 ∨ n = 5 ∨ n = 6 := by omega
+    rcases this with rfl | rfl | rfl | rfl | rfl | rfl | rfl <;> rfl
+  · have h7 : 7 ≤ n := by omega
+    obtain ⟨f1, f2, f3, f4, _⟩ := xEnd_fields
+    have hl : xLab n = .beginCycle 0 := by
+      unfold xLab xLabs
+      simp [List.getD, h7]
+    have hs : xσ n = { xEnd with time := xEnd.time + (n - 7) } := by
+      unfold xσ
+      by_cases h8 : n = 7
+      · subst h8; rfl
+      · simp [show ¬ n ≤ 7 by omega]
+    have hs' : xσ (n + 1) = { xEnd with time := xEnd.time + (n + 1 - 7) } := by
+      unfold xσ; simp [show ¬ n + 1 ≤ 7 by omega]
+    rw [hl, hs, hs']
+    simp only [step, f1, f2, f3, f4]
+    simp
+    omega
+
+def xExec : Exec {} := { σ := xσ, lab := xLab, init := reach_runLabels _ _ .init _, next := xnext }
+
+theorem xσ_tail (n : Nat) (h : 7 ≤ n) : (xσ n).cpc = .idle ∧ (xσ n).flag = false ∧ ∀ i, (xσ n).pcs i = .idle := by
+  obtain ⟨f1, f2, _, _, _, f6, _⟩ := xEnd_fields
+  by_cases h8 : n = 7
+  · subst h8; exact ⟨f2, f1, f6⟩
+  · unfold xσ; simp only [show ¬ n ≤ 7 by omega, if_false]; exact ⟨f2, f1, f6⟩
+
+example : xExec.Continues := by
+  refine ⟨by decide, by decide, ?_⟩
+  intro n
+  show isStopLabel (xLab n) = false
+  unfold xLab xLabs
+  by_cases h : n < 7
+  · have : n = 0 ∨ n = 1 ∨ n = 2 ∨ n = 3 ∨ n = 4 ∨ n = 5 ∨ n = 6 := by omega
+    rcases this with rfl | rfl | rfl | rfl | rfl | rfl | rfl <;> rfl
+  · simp [List.getD, show 7 ≤ n by omega, isStopLabel]
+
+/-- the execution is fair: every helpful step that stays enabled is taken (here: none stays
+    enabled for ever, because each one IS taken within the first seven steps) -/
+example : xExec.Fair := by
+  refine ⟨?_, ?_, ?_, ?_⟩
+  · intro i n hall
+    obtain ⟨k, v, w, h⟩ := hall (n + 7) (by omega)
+    have := (xσ_tail (n + 7) (by omega)).2.2 i
+    rw [show xExec.σ (n + 7) = xσ (n + 7) from rfl, this] at h; simp at h
+  · intro n hall
+    have h := hall (n + 7) (by omega)
+    rw [show xExec.σ (n + 7) = xσ (n + 7) from rfl, (xσ_tail (n + 7) (by omega)).1] at h; simp at h
+  · intro n hall
+    obtain ⟨b, h⟩ := hall (n + 7) (by omega)
+    rw [show xExec.σ (n + 7) = xσ (n + 7) from rfl, (xσ_tail (n + 7) (by omega)).1] at h; simp at h
+  · intro n hall
+    have h := (hall (n + 7) (by omega)).2
+    rw [show xExec.σ (n + 7) = xσ (n + 7) from rfl, (xσ_tail (n + 7) (by omega)).2.1] at h; simp at h
+
+/-- … and the accepted value (position 0, accepted by step 3) has been delivered by step 6 -/
+example : (xσ 3).accepted = [(0, 5)] ∧ flat (xσ 6).delivered = [(0, 5)] := by decide
 
 end HgVerif.PushQueue
